@@ -30,8 +30,8 @@ type ahEvent struct {
 var ahEjectFor = []time.Duration{time.Second, 30 * time.Second, 10 * time.Minute}
 
 func TestC06AffinityAfterHistory(t *testing.T) {
-	sub := lab.Sub("affinity-after-history", "rapid, virtual time: strategy in {ip_hash, ip_hash_consistent}, pool 2..10, 1..4 observed clients (2..4 request variants each); history of 3..25 events: "+
-		"eject(i, 1s|30s|10m), re-admit (time passes beyond the window), advance, add, remove, request of an observed client, request of another client; then, with the eligible "+
+	sub := lab.Sub("affinity-after-history", "rapid, virtual time: strategy in {ip_hash, ip_hash_consistent}, pool 2..10 (one case in twelve: 64/65/66/100/130), 1..4 observed clients (2..4 request variants each); history of 3..25 events: "+
+		"eject(i, 1s|30s|10m), re-admit (time passes beyond the window), advance, add, remove, request of an observed client (one time in three followed by the ejection of the very backend that served it), request of another client; then, with the eligible "+
 		"set stable, every observed client sends all its variants twice, interleaved with each other and with other clients, through lb.NextBackend or lb.ServeHTTP(L1); "+
 		"oracle (window only): one backend per client, every choice an eligible member; non-trivial = >=2 eligible backends in the window and the history changed the eligible set "+
 		"after an observed client had already been served")
@@ -44,6 +44,9 @@ func TestC06AffinityAfterHistory(t *testing.T) {
 		strategy := rapid.SampledFrom(hashStrategies).Draw(rt, "strategy")
 		via := rapid.SampledFrom([]string{"next", "serve"}).Draw(rt, "via")
 		n0 := rapid.IntRange(2, 10).Draw(rt, "n0")
+		if rapid.IntRange(0, 11).Draw(rt, "large_pool") == 0 {
+			n0 = rapid.SampledFrom([]int{64, 65, 66, 100, 130}).Draw(rt, "n0_large") // around and beyond a machine word of backends
+		}
 		nc := rapid.IntRange(1, 4).Draw(rt, "clients")
 		addrs := make([]string, nc)
 		variants := make([][]reqSpec, nc)
@@ -146,8 +149,22 @@ func TestC06AffinityAfterHistory(t *testing.T) {
 					c := rapid.IntRange(0, nc-1).Draw(rt, "c")
 					v := rapid.IntRange(0, len(variants[c])-1).Draw(rt, "v")
 					evs = append(evs, ahEvent{K: "observed", I: c})
-					p.pick(variants[c][v], via)
+					home, _ := p.pick(variants[c][v], via)
 					observedServed = true
+					// one time in three the backend this client was just served by is ejected right away
+					// (whatever its position in the pool): the client has to move
+					if home != "" && !p.ejected[home] && len(p.names)-len(p.ejected) > 1 && rapid.IntRange(0, 2).Draw(rt, "eject_home") == 0 {
+						d := rapid.SampledFrom(ahEjectFor).Draw(rt, "d_home")
+						for i, b := range p.lb.VerifBackends() {
+							if b.Name == home {
+								p.lb.MarkBackendUnhealthy(b, d)
+								evs = append(evs, ahEvent{K: "eject-home", I: i, D: d.String()})
+							}
+						}
+						p.ejected[home] = true
+						until[home] = time.Now().Add(d)
+						healthChange()
+					}
 				}
 			}
 			// stable eligible set from here on; it must not be empty
